@@ -226,4 +226,350 @@ Proof.
     exists (cs1 ++ cs2). rewrite app_assoc. cbn [seq map fold_left]. exact HS2.
 Qed.
 
+
+(* ---- the invariant between calls (after the first non-empty jls_wr_fsr_data) ---- *)
+Definition rf_I (t0 : Z) (pre cs : list rf_chunk) (blks : list (list N)) (x : wm_fx) (st : py_wr) (s : rf_bs) : Prop :=
+  rf_S d pos0 t0 1 pre cs blks x st /\ rf_bs_rel x s /\ bs_alloc s = true /\
+  pw_dts st = (t0 + py_spd pd * Z.of_nat (length blks))%Z.
+
+Lemma rf_S_set_buf : forall t0 pre cs blks x st r,
+  rf_S d pos0 t0 1 pre cs blks x st -> rf_S d pos0 t0 1 pre cs blks (rf_set_buf x r) st.
+Proof.
+  intros t0 pre cs blks x st r HS. pose proof HS as (HR & _).
+  apply (rf_S_change d pos0 t0 1 pre cs blks x st); [exact HS| |reflexivity|reflexivity].
+  rewrite (rf_py_eta st). unfold rf_set_buf.
+  apply (rf_R_fsr_change d pos0 1 _ x st _ (pw_dts st) HR); [reflexivity|].
+  cbn [wm_f_set_block wm_f_ts]. symmetry. exact (R_dts _ _ _ _ _ _ HR).
+Qed.
+
+(* a feed (the body of jls_wr_fsr_data after Spec's extension) *)
+Lemma rf_sim_feed : forall t0 data rest pre cs blks x st st',
+  rf_S d pos0 t0 1 pre cs blks x st ->
+  pw_dts st = (t0 + py_spd pd * Z.of_nat (length blks))%Z ->
+  wm_f_omit (wm_fx_fsr x) < 256 ->
+  let all := rev (wm_f_buf (wm_fx_fsr x)) ++ data in
+  let bl := fst (rf_cut (S (length all)) (N.to_nat (sg_spd d)) all) in
+  py_do_all pd (py_plan small (py_sdf pd) (Z.of_N (wm_f_omit (wm_fx_fsr x))) (map (rf_sblk w) bl ++ rest)) st = PyOk st' ->
+  let x1 := rf_feed summ1 summN d x data in
+  exists cs' st1,
+    rf_S d pos0 t0 1 pre (cs ++ cs') (blks ++ bl) x1 st1 /\
+    pw_dts st1 = (t0 + py_spd pd * Z.of_nat (length (blks ++ bl)))%Z /\
+    wm_f_omit (wm_fx_fsr x1) < 256 /\
+    py_do_all pd (py_plan small (py_sdf pd) (Z.of_N (wm_f_omit (wm_fx_fsr x1))) rest) st1 = PyOk st'.
+Proof.
+  intros t0 data rest pre cs blks x st st' HS Hdts Hom all bl Hpy x1.
+  pose proof (rf_cut_spec (S (length all)) (N.to_nat (sg_spd d)) all ltac:(lia) ltac:(lia)) as Hcut.
+  subst x1. unfold rf_feed. fold all. subst bl.
+  destruct (rf_cut (S (length all)) (N.to_nat (sg_spd d)) all) as [bl r]. cbn [fst] in Hpy.
+  destruct Hcut as (_ & _ & Hfull).
+  destruct (rf_sim_blocks t0 bl rest pre cs blks x st st' HS Hfull Hdts Hom Hpy) as (cs' & st1 & HS1 & Hdts1 & Hom1 & Hpy1).
+  exists cs', st1. split; [apply rf_S_set_buf; exact HS1|]. split; [exact Hdts1|]. split; [exact Hom1|exact Hpy1].
+Qed.
+
+Lemma rf_bs_rel_next : forall x s, rf_bs_rel x s -> bs_alloc s = true ->
+  rf_next x = (bs_ts s + Z.of_nat (length (bs_pend s)))%Z /\ rev (wm_f_buf (wm_fx_fsr x)) = bs_pend s.
+Proof.
+  intros x s (A & B & C & D) Ha. destruct (C Ha) as (C1 & C2 & (C3 & C4)).
+  unfold rf_next. rewrite C1, C3, C2. unfold rf_len. rewrite rev_length, rev_involutive. split; [lia|reflexivity].
+Qed.
+
+Lemma rf_bs_data_ne : forall s sid samples, samples <> [] ->
+  rf_bs_data d s sid samples =
+  (let s1 := if bs_alloc s then s else {| bs_alloc := true; bs_ts := sid; bs_pend := [] |} in
+   let next := (bs_ts s1 + Z.of_nat (length (bs_pend s1)))%Z in
+   let all := bs_pend s1 ++ rf_extend (sg_dtype d) next sid samples in
+   let '(bl, r) := rf_cut (S (length all)) (N.to_nat (sg_spd d)) all in
+   ({| bs_alloc := true; bs_ts := (bs_ts s1 + Z.of_nat (length bl) * Z.of_N (sg_spd d))%Z; bs_pend := r |}, bl)).
+Proof. intros s sid samples H. destruct samples; [congruence|reflexivity]. Qed.
+
+(* one call, the block buffer already allocated *)
+Lemma rf_sim_op : forall t0 o ops pre cs blks x st s st',
+  rf_I t0 pre cs blks x st s ->
+  py_do_all pd (py_plan small (py_sdf pd) (Z.of_N (wm_f_omit (wm_fx_fsr x))) (rf_script d s (o :: ops))) st = PyOk st' ->
+  exists cs' blks' st1 s1,
+    rf_I t0 pre (cs ++ cs') (blks ++ blks') (rf_do x o) st1 s1 /\
+    py_do_all pd (py_plan small (py_sdf pd) (Z.of_N (wm_f_omit (wm_fx_fsr (rf_do x o)))) (rf_script d s1 ops)) st1 = PyOk st' /\
+    rf_blocks d s (o :: ops) = blks' ++ rf_blocks d s1 ops.
+Proof.
+  intros t0 o ops pre cs blks x st s st' (HS & Hbs & Ha & Hdts) Hpy.
+  pose proof Hbs as (B1 & B2 & B3 & B4). destruct (B3 Ha) as (C1 & C2 & C3).
+  destruct o as [sid samples|en].
+  - (* data *)
+    cbn [rf_script rf_blocks rf_do] in *.
+    destruct samples as [|s0 sm] eqn:Esm.
+    + cbn [rf_bs_data map app] in *. unfold wm_fsr_data. cbn [length N.of_nat N.eqb].
+      exists [], [], st, s. rewrite !app_nil_r. split; [|split; [exact Hpy|reflexivity]].
+      split; [exact HS|]. split; [exact Hbs|]. split; assumption.
+    + rewrite <- Esm in *. assert (Hsne : samples <> []) by (rewrite Esm; discriminate). clear Esm.
+      rewrite rf_fsr_data_feed; [|exact Hspd|exact Hfill|intros _; exact C3|exact Hsne].
+      assert (Hx1 : rf_alloc x sid = x) by (unfold rf_alloc; rewrite B1, Ha; reflexivity).
+      rewrite Hx1.
+      destruct (rf_bs_rel_next x s Hbs Ha) as (Enext & Epend).
+      rewrite (rf_bs_data_ne s sid samples Hsne) in *.
+      assert (Esel : (if bs_alloc s then s else {| bs_alloc := true; bs_ts := sid; bs_pend := [] |}) = s) by (rewrite Ha; reflexivity).
+      cbv zeta in Hpy |- *. rewrite Esel in Hpy |- *. rewrite <- Enext, <- Epend in Hpy |- *.
+      set (all := rev (wm_f_buf (wm_fx_fsr x)) ++ rf_extend (sg_dtype d) (rf_next x) sid samples) in *.
+      pose proof (rf_cut_spec (S (length all)) (N.to_nat (sg_spd d)) all ltac:(lia) ltac:(lia)) as Hcut.
+      destruct (rf_cut (S (length all)) (N.to_nat (sg_spd d)) all) as [bl r] eqn:Ecut.
+      destruct Hcut as (Hr & Hcat & Hfull).
+      set (s1 := {| bs_alloc := true; bs_ts := (bs_ts s + Z.of_nat (length bl) * Z.of_N (sg_spd d))%Z; bs_pend := r |}) in *.
+      pose proof (rf_sim_feed t0 (rf_extend (sg_dtype d) (rf_next x) sid samples) (rf_script d s1 ops) pre cs blks x st st' HS Hdts B2) as X.
+      cbv zeta in X. fold all in X. rewrite Ecut in X. cbn [fst] in X.
+      destruct (X Hpy) as (cs' & st1 & HS1 & Hdts1 & Hom1 & Hpy1).
+      exists cs', bl, st1, s1. split; [|split; [exact Hpy1|reflexivity]].
+      split; [exact HS1|]. split; [|split; [reflexivity|exact Hdts1]].
+      (* block state after the feed *)
+      unfold rf_feed. fold all. rewrite Ecut.
+      set (y := fold_left (rf_flush summ1 summN d) bl x).
+      assert (Hy : wm_f_alloc (wm_fx_fsr y) = true /\ wm_f_omit (wm_fx_fsr y) = wm_f_omit (wm_fx_fsr (rf_feed summ1 summN d x (rf_extend (sg_dtype d) (rf_next x) sid samples))) /\
+                   wm_f_ts (wm_fx_fsr y) = (bs_ts s + Z.of_nat (length bl) * Z.of_N (sg_spd d))%Z).
+      { split; [|split].
+        - subst y. clear - B1 Ha Hfull Hspd. revert x B1. induction bl as [|b bl IH]; intros x B1; [cbn; congruence|].
+          cbn [fold_left]. inversion Hfull; subst. apply IH; [assumption|].
+          destruct (rf_flush_blk summ1 summN d x b) as (A & _); [intro E; subst b; cbn in *; lia|]. rewrite A. exact B1.
+        - unfold rf_feed. fold all. rewrite Ecut. reflexivity.
+        - subst y. rewrite <- C1. clear - Hfull Hspd. revert x. induction bl as [|b bl IH]; intros x; [cbn; lia|].
+          cbn [fold_left length]. inversion Hfull; subst. rewrite IH by assumption.
+          destruct (rf_flush_blk summ1 summN d x b) as (_ & _ & A & _); [intro E; subst b; cbn in *; lia|]. rewrite A. lia. }
+      destruct Hy as (Hy1 & Hy2 & Hy3).
+      unfold rf_bs_rel. cbn [wm_fx_fsr rf_set_buf wm_fx_set_fsr wm_f_set_block wm_f_alloc wm_f_omit wm_f_ts wm_f_buf bs_alloc bs_ts bs_pend].
+      split; [exact Hy1|]. split; [rewrite Hy2; exact Hom1|].
+      split; [|intro X0; discriminate X0]. intros _. split; [exact Hy3|]. split; [reflexivity|].
+      unfold rf_binv. cbn [wm_f_count wm_f_buf wm_f_set_block]. unfold rf_len. rewrite rev_length. split; [reflexivity|lia].
+  - (* omit *)
+    cbn [rf_script rf_blocks rf_do py_plan] in *.
+    exists [], [], st, s. rewrite !app_nil_r.
+    assert (Hreg : Z.of_N (if en =? 0 then 0 else N.lor (wm_f_omit (wm_fx_fsr x)) 1) = py_reg_enable (Z.of_N (wm_f_omit (wm_fx_fsr x))) (negb (en =? 0))
+                   /\ (if en =? 0 then 0 else N.lor (wm_f_omit (wm_fx_fsr x)) 1) < 256).
+    { destruct (en =? 0); cbn [negb py_reg_enable]; [split; [reflexivity|lia]|]. apply rf_reg_enable. exact B2. }
+    destruct Hreg as (Hreg & Hlt).
+    split; [|split; [cbn [wm_fx_fsr wm_fx_set_fsr wm_f_set_omit wm_f_omit]; rewrite Hreg; exact Hpy|reflexivity]].
+    split; [|split; [|split; [exact Ha|exact Hdts]]].
+    + pose proof HS as (HR & _).
+      apply (rf_S_change d pos0 t0 1 pre cs blks x st); [exact HS| |reflexivity|reflexivity].
+      rewrite (rf_py_eta st). apply (rf_R_fsr_change d pos0 1 _ x st _ (pw_dts st) HR); [reflexivity|].
+      cbn [wm_f_set_omit wm_f_ts]. symmetry. exact (R_dts _ _ _ _ _ _ HR).
+    + unfold rf_bs_rel. cbn [wm_fx_fsr wm_fx_set_fsr wm_f_set_omit wm_f_alloc wm_f_omit wm_f_ts wm_f_buf].
+      split; [exact B1|]. split; [exact Hlt|]. split; [|exact B4]. intros _. split; [exact C1|]. split; [exact C2|]. exact C3.
+Qed.
+
+
+(* ---- jls_fsr_close ---- *)
+Lemma rf_close_levels_eq : wm_fsr_close_levels = map N.of_nat (seq 1 15).
+Proof. reflexivity. Qed.
+
+Lemma rf_sim_fsr_close : forall t0 pre cs blks x st s stm st',
+  rf_I t0 pre cs blks x st s ->
+  py_do_all pd (py_plan small (py_sdf pd) (Z.of_N (wm_f_omit (wm_fx_fsr x))) (rf_script d s [])) st = PyOk stm ->
+  py_close pd stm = PyOk st' ->
+  exists cs', rf_S d pos0 t0 16 pre (cs ++ cs') (blks ++ rf_blocks d s []) (wm_fsr_close summ1 summN d x) st'.
+Proof.
+  intros t0 pre cs blks x st s stm st' (HS & Hbs & Ha & Hdts) Hpy Hcl.
+  pose proof Hbs as (B1 & B2 & B3 & B4). destruct (B3 Ha) as (C1 & C2 & (C3 & C4)).
+  cbn [rf_script rf_blocks] in *. rewrite Ha in Hpy. rewrite Ha.
+  unfold wm_fsr_close. rewrite B1, Ha. rewrite rf_close_levels_eq.
+  (* the pending block *)
+  assert (Hstep : exists cs1 y,
+            wm_fsr_wr_data summ1 summN d x = y /\
+            rf_S d pos0 t0 1 pre (cs ++ cs1) (blks ++ match bs_pend s with [] => [] | _ => [bs_pend s] end) y stm).
+  { assert (Hx : rf_set_buf x (rev (wm_f_buf (wm_fx_fsr x))) = x) by (apply rf_set_buf_same; exact C3).
+    assert (Hp : rev (wm_f_buf (wm_fx_fsr x)) = bs_pend s) by (rewrite C2, rev_involutive; reflexivity).
+    rewrite Hp in Hx.
+    destruct (bs_pend s) as [|p0 pr] eqn:Ep.
+    - cbn [map py_plan rf_sblk length Z.of_nat Z.eqb py_do_all] in Hpy. injection Hpy as <-.
+      exists [], x. rewrite !app_nil_r. split; [|exact HS].
+      unfold wm_fsr_wr_data. rewrite C3, C2. cbn [rev]. reflexivity.
+    - rewrite <- Ep in *. assert (Hne : bs_pend s <> []) by (rewrite Ep; discriminate). clear Ep.
+      cbn [py_plan rf_sblk] in Hpy.
+      destruct (Z.eqb_spec (Z.of_nat (length (bs_pend s))) 0) as [E|_]; [destruct (bs_pend s); [congruence|cbn [length] in E; lia]|].
+      cbn [py_plan py_do_all py_do] in Hpy. unfold py_bind in Hpy.
+      rewrite <- rf_req_plan in Hpy.
+      destruct (py_wr_data pd (Z.of_nat (length (bs_pend s))) (rf_req d (wm_f_omit (wm_fx_fsr x)) (bs_pend s)) st) as [st1|e] eqn:Ewd; [|discriminate].
+      injection Hpy as <-.
+      assert (Hlen : rf_len (bs_pend s) <= sg_spd d).
+      { unfold rf_len in *. rewrite <- Hp, rev_length. lia. }
+      destruct (rf_sim_flush summ1 summN d pos0 t0 1 Hpos0 Hsid Hg_idx Hg_sum Hspd Hw Hg_data ltac:(lia) pre cs blks x st (bs_pend s) st1 HS Hne Hlen Hdts Ewd)
+        as (cs1 & HS1 & _).
+      exists cs1, (rf_flush summ1 summN d x (bs_pend s)). split; [unfold rf_flush; rewrite Hx; reflexivity|exact HS1]. }
+  destruct Hstep as (cs1 & y & Ey & HSy). rewrite Ey. clear Ey.
+  set (y1 := wm_fx_set_fsr y _).
+  assert (HSy1 : rf_S d pos0 t0 1 pre (cs ++ cs1) (blks ++ match bs_pend s with [] => [] | _ => [bs_pend s] end) y1 stm).
+  { pose proof HSy as (HR & _).
+    apply (rf_S_change d pos0 t0 1 _ _ _ y stm); [exact HSy| |reflexivity|reflexivity].
+    rewrite (rf_py_eta stm). apply (rf_R_fsr_change d pos0 1 _ y stm _ (pw_dts stm) HR); [reflexivity|].
+    cbn [wm_f_set_block wm_f_ts]. symmetry. exact (R_dts _ _ _ _ _ _ HR). }
+  clearbody y1.
+  unfold py_close in Hcl.
+  destruct (rf_sim_close_loop t0 15 1 pre (cs ++ cs1) _ y1 stm st' HSy1 ltac:(lia) ltac:(lia) Hcl) as (cs2 & HS2).
+  exists (cs1 ++ cs2). rewrite app_assoc. exact HS2.
+Qed.
+
+Lemma rf_sim_ops : forall ops t0 pre cs blks x st s stm st',
+  rf_I t0 pre cs blks x st s ->
+  py_do_all pd (py_plan small (py_sdf pd) (Z.of_N (wm_f_omit (wm_fx_fsr x))) (rf_script d s ops)) st = PyOk stm ->
+  py_close pd stm = PyOk st' ->
+  exists cs', rf_S d pos0 t0 16 pre (cs ++ cs') (blks ++ rf_blocks d s ops)
+                   (wm_fsr_close summ1 summN d (fold_left rf_do ops x)) st'.
+Proof.
+  induction ops as [|o ops IH]; intros t0 pre cs blks x st s stm st' HI Hpy Hcl.
+  - cbn [fold_left]. eapply rf_sim_fsr_close; eauto.
+  - destruct (rf_sim_op t0 o ops pre cs blks x st s stm HI Hpy) as (cs1 & blks1 & st1 & s1 & HI1 & Hpy1 & Eb).
+    destruct (IH t0 pre (cs ++ cs1) (blks ++ blks1) (rf_do x o) st1 s1 stm st' HI1 Hpy1 Hcl) as (cs2 & HS2).
+    exists (cs1 ++ cs2). rewrite app_assoc. cbn [fold_left]. rewrite Eb, app_assoc. exact HS2.
+Qed.
+
+
+(* ---- the state after jls_wr_signal_def: nothing written on the FSR track yet ---- *)
+Definition rf_fresh (x : wm_fx) : Prop :=
+  rf_bok (wm_fx_base x) /\ rf_tok (wm_b_raw (wm_fx_base x)) (wm_fx_tk x) /\
+  wm_tk_type (wm_fx_tk x) = JLS_TRACK_TYPE_FSR /\
+  wm_tk_offsets (wm_fx_tk x) = repeat 0 16 /\ wm_ck_offset (wm_tk_data_head (wm_fx_tk x)) = 0 /\
+  wm_f_levels (wm_fx_fsr x) = repeat None 16.
+
+Lemma rf_cap_nonneg : forall L, (0 <= py_cap pd L)%Z.
+Proof.
+  intros L. unfold py_cap, py_epd. change (py_eps pd) with (Z.of_N (sg_eps d)). change (py_spd pd) with (Z.of_N (sg_spd d)).
+  change (py_sdf pd) with (Z.of_N (sg_sdf d)). change (py_sumdf pd) with (Z.of_N (sg_sumdf d)).
+  destruct L as [|[|L]]; try lia. apply Z_div_nonneg_nonneg; [lia|apply Z_div_nonneg_nonneg; lia].
+Qed.
+
+Lemma rf_R_init : forall x, rf_fresh x -> rf_R d pos0 1 [] x (py_init (wm_f_ts (wm_fx_fsr x)) pos0).
+Proof.
+  intros x (A & B & C & D & E & F).
+  constructor; cbn [py_init pw_disk pw_pos pw_lvls pw_heads pw_dts pw_dhead length]; try assumption.
+  - rewrite F. reflexivity.
+  - lia.
+  - constructor.
+  - intros L HL. rewrite D. unfold py_head_get. cbn [py_init pw_heads]. rewrite nth_nil_dflt.
+    split; [|left; reflexivity]. unfold wm_get_off, rf_psi. cbn [Z.eqb].
+    rewrite Nat2N.id. destruct (nth_in_or_default L (repeat 0 16) 0) as [Hin|E0]; [apply repeat_spec in Hin; exact Hin|exact E0].
+  - rewrite E. split; [reflexivity|left; reflexivity].
+  - intros L HL. unfold wm_f_get_level. rewrite F, Nat2N.id.
+    assert (Hn : nth L (repeat (@None wm_flevel) 16) None = None).
+    { destruct (nth_in_or_default L (repeat (@None wm_flevel) 16) None) as [Hin|E0]; [apply repeat_spec in Hin; exact Hin|exact E0]. }
+    rewrite Hn. unfold py_lvl_get. cbn [py_init pw_lvls]. rewrite nth_nil_dflt.
+    unfold rf_lvl_rel. cbn [py_lvl0 pl_idx pl_sum length Z.of_nat]. fold pd.
+    split; [apply rf_cap_nonneg|]. split; [change (py_eps pd) with (Z.of_N (sg_eps d)); lia|]. split; reflexivity.
+  - reflexivity.
+Qed.
+
+Lemma rf_fresh_alloc : forall x sid, rf_fresh x -> rf_fresh (rf_alloc x sid).
+Proof. intros x sid H. unfold rf_alloc. destruct (wm_f_alloc (wm_fx_fsr x)); exact H. Qed.
+
+Lemma rf_fresh_omit : forall x o, rf_fresh x -> rf_fresh (wm_fx_set_fsr x (wm_f_set_omit (wm_fx_fsr x) o)).
+Proof. intros x o H. exact H. Qed.
+
+(* ---- the whole call sequence ---- *)
+Lemma rf_sim_run : forall ops x stm st',
+  rf_fresh x -> wm_f_alloc (wm_fx_fsr x) = false -> wm_f_ts (wm_fx_fsr x) = 0%Z -> wm_f_omit (wm_fx_fsr x) < 256 ->
+  py_do_all pd (py_plan small (py_sdf pd) (Z.of_N (wm_f_omit (wm_fx_fsr x))) (rf_script d rf_bs0 ops)) (py_init (rf_t0 ops) pos0) = PyOk stm ->
+  py_close pd stm = PyOk st' ->
+  exists cs, rf_S d pos0 (rf_t0 ops) 16 (filter (rf_mine d) (rf_out x)) cs (rf_blocks d rf_bs0 ops)
+                  (wm_fsr_close summ1 summN d (fold_left rf_do ops x)) st'.
+Proof.
+  induction ops as [|o ops IH]; intros x stm st' Hfr Hal Hts Hom Hpy Hcl.
+  - (* no data at all *)
+    cbn [rf_script rf_bs0 bs_alloc py_plan py_do_all rf_t0 rf_blocks fold_left] in *. injection Hpy as <-.
+    unfold wm_fsr_close. rewrite Hal, rf_close_levels_eq.
+    pose proof (rf_R_init x Hfr) as HR. rewrite Hts in HR.
+    assert (HS : rf_S d pos0 0 1 (filter (rf_mine d) (rf_out x)) [] [] x (py_init 0 pos0)).
+    { split; [exact HR|]. split; [constructor|reflexivity]. }
+    unfold py_close in Hcl.
+    destruct (rf_sim_close_loop 0%Z 15 1 _ [] [] x _ st' HS ltac:(lia) ltac:(lia) Hcl) as (cs & HS').
+    exists cs. exact HS'.
+  - destruct o as [sid samples|en].
+    + destruct samples as [|s0 sm] eqn:Esm.
+      * (* empty call: nothing happens *)
+        cbn [rf_script rf_bs_data map app rf_t0 rf_blocks fold_left rf_do] in *.
+        assert (Ex : wm_fsr_data summ1 summN d x sid [] = x) by reflexivity.
+        rewrite Ex. apply (IH x stm st'); assumption.
+      * (* the first samples: the block buffer is allocated with timestamp sid *)
+        rewrite <- Esm in *. assert (Hsne : samples <> []) by (rewrite Esm; discriminate).
+        assert (Et0 : rf_t0 (RfData sid samples :: ops) = sid) by (rewrite Esm; reflexivity).
+        rewrite Et0 in *. clear Esm.
+        set (x1 := rf_alloc x sid).
+        set (s1 := {| bs_alloc := true; bs_ts := sid; bs_pend := [] |}).
+        assert (Hx1f : wm_fx_fsr x1 = wm_f_set_sid0 (wm_f_set_block (wm_fx_fsr x) true sid 0 []) sid).
+        { subst x1. unfold rf_alloc. rewrite Hal. reflexivity. }
+        assert (Escr : rf_script d rf_bs0 (RfData sid samples :: ops) = rf_script d s1 (RfData sid samples :: ops)).
+        { cbn [rf_script]. rewrite !(rf_bs_data_ne _ sid samples Hsne). reflexivity. }
+        assert (Eblk : rf_blocks d rf_bs0 (RfData sid samples :: ops) = rf_blocks d s1 (RfData sid samples :: ops)).
+        { cbn [rf_blocks]. rewrite !(rf_bs_data_ne _ sid samples Hsne). reflexivity. }
+        assert (Edo : fold_left rf_do (RfData sid samples :: ops) x = fold_left rf_do (RfData sid samples :: ops) x1).
+        { cbn [fold_left rf_do]. f_equal.
+          rewrite (rf_fsr_data_feed summ1 summN d x sid samples Hspd Hfill) by (try exact Hsne; intro X; congruence).
+          rewrite (rf_fsr_data_feed summ1 summN d x1 sid samples Hspd Hfill); [| |exact Hsne].
+          - assert (E2 : rf_alloc x1 sid = x1) by (unfold rf_alloc; rewrite Hx1f; reflexivity). rewrite E2. reflexivity.
+          - intros _. rewrite Hx1f. unfold rf_binv. cbn. split; [reflexivity|exact Hspd]. }
+        rewrite Escr in Hpy. rewrite Eblk, Edo.
+        assert (HI : rf_I sid (filter (rf_mine d) (rf_out x)) [] [] x1 (py_init sid pos0) s1).
+        { split; [|split; [|split]].
+          - split; [|split; [cbn [py_init pw_disk]; constructor|subst x1; unfold rf_alloc; rewrite Hal; reflexivity]].
+            pose proof (rf_R_init x1 (rf_fresh_alloc x sid Hfr)) as HR. rewrite Hx1f in HR. exact HR.
+          - unfold rf_bs_rel. rewrite Hx1f. cbn. split; [reflexivity|]. split; [exact Hom|]. split; [|intro X; discriminate X].
+            intros _. split; [reflexivity|]. split; [reflexivity|]. split; [reflexivity|exact Hspd].
+          - reflexivity.
+          - cbn. lia. }
+        assert (Hom1 : wm_f_omit (wm_fx_fsr x1) = wm_f_omit (wm_fx_fsr x)) by (rewrite Hx1f; reflexivity).
+        rewrite <- Hom1 in Hpy.
+        destruct (rf_sim_ops (RfData sid samples :: ops) sid _ [] [] x1 _ s1 stm st' HI Hpy Hcl) as (cs & HS).
+        exists cs. exact HS.
+    + (* omit before any data *)
+      cbn [rf_script py_plan rf_t0 rf_blocks fold_left rf_do] in *.
+      assert (Hreg : Z.of_N (if en =? 0 then 0 else N.lor (wm_f_omit (wm_fx_fsr x)) 1) = py_reg_enable (Z.of_N (wm_f_omit (wm_fx_fsr x))) (negb (en =? 0))
+                     /\ (if en =? 0 then 0 else N.lor (wm_f_omit (wm_fx_fsr x)) 1) < 256).
+      { destruct (en =? 0); cbn [negb py_reg_enable]; [split; [reflexivity|lia]|]. apply rf_reg_enable. exact Hom. }
+      destruct Hreg as (Hreg & Hlt).
+      set (x' := wm_fx_set_fsr x (wm_f_set_omit (wm_fx_fsr x) (if en =? 0 then 0 else N.lor (wm_f_omit (wm_fx_fsr x)) 1))).
+      destruct (IH x' stm st') as (cs & HS); try assumption.
+      { subst x'. cbn [wm_fx_fsr wm_fx_set_fsr wm_f_set_omit wm_f_omit]. rewrite Hreg. exact Hpy. }
+      exists cs. exact HS.
+Qed.
+
 End RF_PYR2.
+
+(* ------------------------------------------------------------------ the component-level theorem *)
+Lemma rf_guard_idx : forall d, 8 * sg_eps d + 16 < 4294967296 -> 8 * sg_sumdf d + 16 < 4294967296 ->
+  forall L, (8 * py_cap (rf_pd d) L + 16 < 4294967296)%Z.
+Proof.
+  intros d H1 H2 L. unfold py_cap, py_epd, rf_pd. cbn [py_eps py_spd py_sdf py_sumdf].
+  destruct L as [|[|L]]; [lia| |lia].
+  rewrite <- !N2Z.inj_div.
+  assert (sg_eps d / (sg_spd d / sg_sdf d) <= sg_eps d).
+  { destruct (N.eq_dec (sg_spd d / sg_sdf d) 0) as [E|E]; [rewrite E; destruct (sg_eps d); cbn; lia|].
+    apply N.div_le_upper_bound; [exact E|]. nia. }
+  lia.
+Qed.
+
+Theorem rf_fsr_refines : forall summ1 summN d pos0 x0 ops st,
+  (0 < pos0)%Z -> sg_id d < 256 -> 0 < sg_spd d ->
+  (dt_bits (sg_dtype d) < 8 \/ dt_bits (sg_dtype d) mod 8 = 0) ->
+  0 < wm_fill_buf_samples (sg_dtype d) ->
+  32 * sg_eps d + 16 < 4294967296 -> 8 * sg_sumdf d + 16 < 4294967296 ->
+  16 + (sg_spd d * dt_bits (sg_dtype d) + 7) / 8 < 4294967296 ->
+  rf_fresh x0 -> wm_fx_fsr x0 = wm_fsr_open ->
+  py_srun (rf_pd d) (dt_bits (sg_dtype d) <=? 8) (rf_t0 ops) pos0 (rf_script d rf_bs0 ops) = PyOk st ->
+  let x := wm_fsr_close summ1 summN d (fold_left (rf_do summ1 summN d) ops x0) in
+  exists cs,
+    filter (rf_mine d) (rf_out x) = rev cs ++ filter (rf_mine d) (rf_out x0) /\
+    Forall2 (rf_chunk_rel d pos0 (rf_t0 ops) (map rc_off cs) (rf_blocks d rf_bs0 ops)) cs (pw_disk st) /\
+    wm_fault (wm_b_raw (wm_fx_base x)) = false /\ rf_bok (wm_fx_base x) /\
+    (forall L, (L < 16)%nat ->
+       wm_get_off (wm_tk_offsets (wm_fx_tk x)) (N.of_nat L) = rf_psi (map rc_off cs) pos0 (py_head_get st L)).
+Proof.
+  intros summ1 summN d pos0 x0 ops st Hpos0 Hsid Hspd Hw Hfill Hg1 Hg2 Hg3 Hfr Hopen Hpy x.
+  unfold py_srun, py_run in Hpy. destruct (py_div_ok (rf_pd d)); [|discriminate].
+  unfold py_bind in Hpy.
+  destruct (py_do_all (rf_pd d) (py_plan (dt_bits (sg_dtype d) <=? 8) (py_sdf (rf_pd d)) 0 (rf_script d rf_bs0 ops)) (py_init (rf_t0 ops) pos0)) as [stm|e] eqn:Edo; [|discriminate].
+  assert (Hg_idx := rf_guard_idx d ltac:(lia) Hg2).
+  assert (Hg_sum : (32 * py_eps (rf_pd d) + 16 < 4294967296)%Z) by (unfold rf_pd; cbn [py_eps]; lia).
+  assert (Hal : wm_f_alloc (wm_fx_fsr x0) = false) by (rewrite Hopen; reflexivity).
+  assert (Hts : wm_f_ts (wm_fx_fsr x0) = 0%Z) by (rewrite Hopen; reflexivity).
+  assert (Hom : wm_f_omit (wm_fx_fsr x0) = 0) by (rewrite Hopen; reflexivity).
+  destruct (rf_sim_run summ1 summN d pos0 Hpos0 Hsid Hg_idx Hg_sum Hspd Hw Hg3 Hfill ops x0 stm st Hfr Hal Hts ltac:(rewrite Hom; lia)
+              ltac:(rewrite Hom; exact Edo) Hpy) as (cs & HR & HF & Hout).
+  exists cs. fold x in HR, HF, Hout. split; [exact Hout|]. split; [exact HF|].
+  destruct HR as [Rbok Rtok Rty Rlvlen Rpos Rnz Rheads Rdhead Rlvls Rdts].
+  split; [destruct Rbok as (((_ & _ & Hf) & _) & _); exact Hf|]. split; [exact Rbok|].
+  intros L HL. apply Rheads. exact HL.
+Qed.
